@@ -1009,8 +1009,72 @@ def _alias_methods(trees: Dict[str, ast.Module]) -> int:
     return n
 
 
+def _flatten_private_bases(trees: Dict[str, ast.Module]) -> int:
+    """class C(_B) where _B is a private class of the same module that only serves as a base (never instantiated, never
+    named otherwise): the methods and class-level assignments C inherits from _B are written into C, C's bases become
+    _B's, and _B goes once no class derives from it any more.  Method resolution is unchanged (single inheritance: what
+    C does not define is found in _B before _B's own bases, and `super()` inside a method of _B means _B's bases, which
+    are C's bases afterwards).  Given up when a method of C reaches _B's version through super()."""
+    import copy as _copy
+
+    n = 0
+    for t in trees.values():
+        for _round in range(3):
+            classes = {c.name: c for c in t.body if isinstance(c, ast.ClassDef)}
+            done = False
+            for b in list(classes.values()):
+                if not b.name.startswith("_") or b.name.startswith("__") or b.decorator_list or b.keywords:
+                    continue
+                subs = [c for c in classes.values() if any(isinstance(x, ast.Name) and x.id == b.name for x in c.bases)]
+                if not subs or any(len(c.bases) != 1 or c.keywords for c in subs):
+                    continue
+                # the base is named only in those base lists (in the whole package)
+                uses = [x for tt in trees.values() for x in ast.walk(tt) if (isinstance(x, ast.Name) and x.id == b.name) or (isinstance(x, ast.Attribute) and x.attr == b.name) or (isinstance(x, ast.alias) and x.name == b.name) or (isinstance(x, ast.Constant) and x.value == b.name)]
+                if len(uses) != len(subs):
+                    continue
+                if any(isinstance(x, (ast.ClassDef,)) for st in b.body for x in ast.walk(st)):
+                    continue
+                b_members = {}
+                for st in b.body:
+                    if isinstance(st, (ast.FunctionDef, ast.AsyncFunctionDef)):
+                        b_members[st.name] = st
+                    elif isinstance(st, ast.Assign) and len(st.targets) == 1 and isinstance(st.targets[0], ast.Name):
+                        b_members[st.targets[0].id] = st
+                    elif isinstance(st, ast.Expr) and isinstance(st.value, ast.Constant):
+                        continue
+                    elif isinstance(st, ast.Pass):
+                        continue
+                    else:
+                        b_members = None
+                        break
+                if b_members is None:
+                    continue
+                ok = True
+                for c in subs:
+                    for x in ast.walk(c):
+                        # super().m(..) / super(C, self).m(..) with m defined by the base
+                        if isinstance(x, ast.Attribute) and isinstance(x.value, ast.Call) and isinstance(x.value.func, ast.Name) and x.value.func.id == "super" and x.attr in b_members:
+                            ok = False
+                if not ok:
+                    continue
+                for c in subs:
+                    own = {st.name for st in c.body if isinstance(st, (ast.FunctionDef, ast.AsyncFunctionDef))} | {st.targets[0].id for st in c.body if isinstance(st, ast.Assign) and len(st.targets) == 1 and isinstance(st.targets[0], ast.Name)}
+                    add = [_copy.deepcopy(st) for nm, st in b_members.items() if nm not in own]
+                    c.body = list(c.body) + add
+                    c.bases = [_copy.deepcopy(x) for x in b.bases]
+                t.body = [st for st in t.body if st is not b]
+                ast.fix_missing_locations(t)
+                n += 1
+                done = True
+                break
+            if not done:
+                break
+    return n
+
+
 def canonicalise(trees: Dict[str, ast.Module]) -> Dict[str, str]:
     """rename renamed private anchors back (in the trees); returns {canonical name: name used in this tree}"""
+    _flatten_private_bases(trees)
     _alias_methods(trees)
     for t in trees.values():
         if any(isinstance(x, ast.Attribute) and x.attr == "format" and isinstance(x.value, ast.Constant) for x in ast.walk(t)) or any(isinstance(x, ast.BinOp) and isinstance(x.op, ast.Mod) and isinstance(x.left, ast.Constant) and isinstance(x.left.value, str) for x in ast.walk(t)):
